@@ -419,7 +419,7 @@ func (fr *ctFrame) declassified(e ast.Expr) bool {
 		}
 		// only for expressions built around a call to a package-level function (e.g. a ConstantTimeCmp verdict): small
 		// expressions over locals alone (`acc == 0`, `&s`, `x.Bytes()`) must match literally, or a renaming could declassify anything
-		if !fr.hasPkgFuncCall(de) {
+		if !fr.hasPkgFuncCall(de) && !fr.moduleMethodCall(e) {
 			continue
 		}
 		if shape == "" {
@@ -431,6 +431,32 @@ func (fr *ctFrame) declassified(e ast.Expr) bool {
 		}
 	}
 	return false
+}
+
+// moduleMethodCall: the source expression is a call x.M(...) of a method declared in this module on a local variable x
+// (e.g. pub.Bytes() with pub an *internal.SM2Point). Renaming the local then keeps the declassification; methods of
+// foreign types (x.Bytes() on a *big.Int) still have to match literally.
+func (fr *ctFrame) moduleMethodCall(e ast.Expr) bool {
+	c, ok := unparen(e).(*ast.CallExpr)
+	if !ok {
+		return false
+	}
+	sel, ok := c.Fun.(*ast.SelectorExpr)
+	if !ok {
+		return false
+	}
+	if _, ok := unparen(sel.X).(*ast.Ident); !ok {
+		return false
+	}
+	s, ok := fr.info.Selections[sel]
+	if !ok {
+		return false
+	}
+	fn, ok := s.Obj().(*types.Func)
+	if !ok || fn.Pkg() == nil {
+		return false
+	}
+	return strings.HasPrefix(fn.Pkg().Path(), "github.com/bilibili/smgo")
 }
 
 // hasPkgFuncCall: does the (contract text) expression call a package-level function (pkg.F(...) or F(...))?
